@@ -324,6 +324,7 @@ def engage_rule(chk, db):
 
 META_EXTRA = "ENGAGE (optional from optional: target ends in the source's engagement state; the source is dereferenced only where tested); PARAM."
 META = (META[0] + " " + META_EXTRA, META[1])
+META = (META[0] + ' SIB (cv/ref-qualified overloads of one member agree); INITFORM.', META[1])
 
 
 def run(chk, tier):
